@@ -152,8 +152,19 @@ func runProperty(id, tier string) int {
 
 	configs := []string{defaultConfig.String()}
 	var extraObs []Obligation
-	if tier == "thorough" {
-		for _, bc := range thoroughConfigs {
+	extraConfigs := thoroughConfigs
+	if tier != "thorough" {
+		// rules whose verdict depends on the width of int are also evaluated for a 32-bit target on every change
+		extraConfigs = nil
+		for _, rl := range rules {
+			if widthSensitive[rl] {
+				extraConfigs = []BuildConfig{{GOOS: "linux", GOARCH: "386"}}
+				break
+			}
+		}
+	}
+	{
+		for _, bc := range extraConfigs {
 			p2, err := Load(*flagRepo, bc, nil)
 			if err != nil {
 				extraObs = append(extraObs, Obligation{Rule: "LOAD", Construct: "config:" + bc.String(), Status: stUndecided, Pos: "-", Detail: err.Error()})
@@ -171,12 +182,7 @@ func runProperty(id, tier string) int {
 					continue
 				}
 				if bs, ok := base[o.Rule+"\x00"+o.Construct]; !ok || bs != o.Status {
-					if widthSensitive[o.Rule] && bc.GOARCH != "amd64" {
-						o.Status = stInfo
-						o.Detail = "[" + bc.String() + ", informational: width-sensitive rule gates on amd64] " + o.Detail
-					} else {
-						o.Detail = "[" + bc.String() + "] " + o.Detail
-					}
+					o.Detail = "[" + bc.String() + "] " + o.Detail
 					o.Construct = o.Construct + "@" + bc.String()
 					extraObs = append(extraObs, o)
 				}
